@@ -1106,7 +1106,32 @@ func intrJSONUnmarshal(ex *Exec, fn *ssa.Function, a []Value, fr *Frame) Value {
 			}
 		}
 	}
-	// arbitrary bytes: may fail, may succeed with some header set
+	// arbitrary bytes: may fail, may succeed with some header set.  The success case is split so that
+	// counterexamples through the documents "{}" and "null" replay natively; other documents are
+	// followed under the assumption that encoding/json accepted them.
+	tb := ex.tb
+	isDoc := func(doc string) *Term {
+		conj := []*Term{tb.Eq(data.Len, ex.i64(int64(len(doc))))}
+		for i := 0; i < len(doc); i++ {
+			pos := tb.Add(data.Off, ex.i64(int64(i)))
+			if data.Arr == nil {
+				return tb.False
+			}
+			if pos.IsConst() && int(pos.SInt()) >= len(data.Arr.Val.(ArrayV)) {
+				return tb.False
+			}
+			conj = append(conj, tb.Eq(ex.readAt(data.Arr, pos), tb.BV(8, uint64(doc[i]))))
+		}
+		return tb.And(conj...)
+	}
+	if ex.branch(isDoc("{}")) {
+		ex.nextMap++
+		ex.store(dst, &MapV{M: &MapObj{ID: ex.nextMap}})
+		return &IfaceV{}
+	}
+	if ex.branch(isDoc("null")) {
+		return &IfaceV{}
+	}
 	if ex.branch(ex.freshVar("json.Unmarshal.ok", 0)) {
 		ex.nextMap++
 		ex.store(dst, &MapV{M: &MapObj{ID: ex.nextMap}})
